@@ -128,6 +128,7 @@ var plainStrings = []string{
 	"pass-word!", "p@ss", "a b", " lead", "trail ", "é", "日本", "naïve", "a.b", "user_name", "UPPER", "lower", "MiXeD9!",
 	"true", "on", "0", "-5", "3.5", "~", "[x]", "{}", "q",
 	"1.2345678e+07", "1e+21", "1.234e-05", "2.5", "-0.5", "1e-07", "123456.7", "false", "9007199254740993",
+	"cost$5", "Tr0ub4dor$3x", "${HOME}", "$PATH", "100%", "a=b&c", "x;y", "a+b",
 }
 
 var emailStrings = []string{"a@b.c", "user@example.com", "first.last@sub.example.org", "x+y@host-1.io", "A1@b2.c3"}
@@ -231,6 +232,10 @@ func (g *Gen) vary(kind string, w Val) Val {
 		return Time(t.Add(d).In(pick(g, zones, "vtz")))
 	case KFloat32, KFloat64:
 		f := parseFloat(w.S, 64)
+		if g.Cfg.Mode == "validate" && !g.Cfg.FullyPop && g.intn(0, 15, "vnan") == 0 {
+			// non-finite values reach the tests unchanged in Validate (every ordered comparison with NaN is false)
+			return Val{T: kind, S: pick(g, []string{"NaN", "+Inf", "-Inf"}, "vnf")}
+		}
 		d := []float64{-2, -1, -0.5, 0.5, 1, 2}[g.intn(0, 5, "vf")]
 		if g.intn(0, 7, "vf0") == 0 && !g.Cfg.FullyPop {
 			return Val{T: kind, S: "0"}
@@ -388,6 +393,9 @@ func (g *Gen) genTest(kind string, w Val, sat bool, idx int) (TestSpec, bool) {
 				ts.Str = s[i:min(len(s), i+1+d)]
 			} else {
 				ts.Str = pick(g, []string{"zq", "b", "@", "1"}, "cf")
+			}
+			if g.intn(0, 7, "cempty") == 0 {
+				ts.Str = "" // every string contains the empty string
 			}
 		case "oneof":
 			ts.Args = []Val{Str("red"), Str("zq")}
@@ -972,6 +980,20 @@ func (g *Gen) Render(n *Node, v Val, pos string) (Val, bool) {
 		for _, f := range n.Fields {
 			fv, _ := v.Get(f.Key)
 			rv, present := g.Render(f.Node, fv, "field")
+			if !present && g.p(0.3, "decoy") {
+				// keys that merely look like the field's key (other case) are unknown keys: ignored
+				k := defaultKeyOf(f)
+				if g.Cfg.LogicalKeys {
+					k = f.Key
+				}
+				up, fl := strings.ToUpper(k), flipFirst(k)
+				if up != k {
+					out.M = append(out.M, KV{K: up, V: Str("decoy-upper")})
+				}
+				if fl != k && fl != up {
+					out.M = append(out.M, KV{K: fl, V: Int(424242)})
+				}
+			}
 			if present {
 				k := defaultKeyOf(f)
 				if g.Cfg.LogicalKeys {
@@ -1027,6 +1049,21 @@ func (g *Gen) Render(n *Node, v Val, pos string) (Val, bool) {
 		return v, true
 	}
 	return g.altRepr(n, v), true
+}
+
+// flipFirst changes the case of the first letter.
+func flipFirst(k string) string {
+	if k == "" {
+		return k
+	}
+	c := k[0]
+	switch {
+	case c >= 'a' && c <= 'z':
+		return string(c-32) + k[1:]
+	case c >= 'A' && c <= 'Z':
+		return string(c+32) + k[1:]
+	}
+	return k
 }
 
 func isExportedIdent(s string) bool {
